@@ -70,13 +70,14 @@ type Item struct {
 	Required bool   // FileRequired(fixture) was true
 	Index    int    // index in the extractor's result for this fixture
 	Pkg      *extractor.Package
+	Env      string // os-release environment label ("" = testdata directory as is)
 	Synth    string // "" for a package exactly as extracted, else the substitution label
 	Base     *Item  // for a synthetic item: the harvested item it was derived from
 }
 
 // ID is a stable identifier of the item (used for replay and distinct keys).
 func (it *Item) ID() string {
-	return fmt.Sprintf("%s|%s|%d|%s", it.Ex.Name, it.Fixture, it.Index, it.Synth)
+	return fmt.Sprintf("%s|%s|os-release=%s|%d|%s", it.Ex.Name, it.Fixture, it.Env, it.Index, it.Synth)
 }
 
 // Stats describes one harvest.
@@ -93,8 +94,34 @@ type Stats struct {
 	PerExtractor    map[string]int `json:"packages_per_extractor"`
 }
 
+// OSEnv is one os-release environment under which the fixtures of the OS package
+// extractors (extractor/filesystem/os/**) are extracted: the file is written to
+// etc/os-release of the scratch copy of the testdata directory (the scan root).
+type OSEnv struct {
+	Label   string
+	Content string // "" with Label "" = no os-release file
+}
+
+// OSEnvs is the enumerated set of os-release environments.
+func OSEnvs() []OSEnv {
+	return []OSEnv{
+		{"", ""},
+		{"typical", "NAME=\"Debian GNU/Linux\"\nID=debian\nVERSION_ID=\"12.4\"\nVERSION=\"12 (bookworm)\"\nVERSION_CODENAME=bookworm\nBUILD_ID=18244.85.29\n"},
+		{"dotless-version", "ID=alpine\nVERSION_ID=3\n"},
+		{"needs-escaping", "NAME=\"N a/me\"\nID=\"my os+1\"\nVERSION_ID=\"1 2/3@x#y?%é\"\nVERSION=\"v 1/2\"\nVERSION_CODENAME=\"code name/α\"\nBUILD_ID=\"b 1/2\"\n"},
+		{"id-only", "ID=ubuntu\n"},
+		{"codename-only", "VERSION_CODENAME=jammy\n"},
+		{"version-only", "VERSION_ID=\"22.04\"\n"},
+		{"empty-file", "\n"},
+	}
+}
+
+// OSDirPrefix: package directories whose extractors read os-release.
+const OSDirPrefix = "extractor/filesystem/os/"
+
 type task struct {
 	ex       Ex
+	env      string
 	root     string // scratch testdata dir
 	rel      string // path inside the testdata dir
 	repoPath string
@@ -143,6 +170,32 @@ func CopyTree(src, dst string) error {
 		}
 		return nil
 	})
+}
+
+// osReleaseMarker is the os-release file the harness adds; it is not a fixture.
+const osReleaseMarker = "etc/os-release"
+
+// PrepareTestdata copies the testdata directory src to dst and installs the
+// os-release environment (never over a file the fixture tree already has).
+func PrepareTestdata(src, dst string, env OSEnv) error {
+	if err := os.MkdirAll(dst, 0o755); err != nil {
+		return err
+	}
+	if err := CopyTree(src, dst); err != nil {
+		return err
+	}
+	if env.Label == "" {
+		return nil
+	}
+	for _, p := range []string{"etc/os-release", "usr/lib/os-release"} {
+		if _, err := os.Lstat(filepath.Join(dst, p)); err == nil {
+			return nil
+		}
+	}
+	if err := os.MkdirAll(filepath.Join(dst, "etc"), 0o755); err != nil {
+		return err
+	}
+	return os.WriteFile(filepath.Join(dst, osReleaseMarker), []byte(env.Content), 0o644)
 }
 
 // ExtractOne runs ex on one file of the testdata directory root (Path relative,
@@ -211,39 +264,45 @@ func Run(repoDir, scratch string, parallel func(n int, fn func(i int)) int) ([]*
 	}
 	sort.Strings(dirs)
 	for _, d := range dirs {
-		src := filepath.Join(repoDir, d, "testdata")
-		if fi, err := os.Stat(src); err != nil || !fi.IsDir() {
-			continue
-		}
-		dst := filepath.Join(scratch, "fixtures", d, "testdata")
-		if err := os.MkdirAll(dst, 0o755); err != nil {
-			return nil, nil, err
-		}
-		if err := CopyTree(src, dst); err != nil {
-			return nil, nil, err
-		}
-		var rels []string
-		err := filepath.WalkDir(dst, func(p string, de fs.DirEntry, err error) error {
+		for ei, env := range OSEnvs() {
+			if ei > 0 && !strings.HasPrefix(d+"/", OSDirPrefix) {
+				break
+			}
+			src := filepath.Join(repoDir, d, "testdata")
+			if fi, err := os.Stat(src); err != nil || !fi.IsDir() {
+				continue
+			}
+			dst := filepath.Join(scratch, "fixtures", "env-"+env.Label, d, "testdata")
+			if err := PrepareTestdata(src, dst, env); err != nil {
+				return nil, nil, err
+			}
+			var rels []string
+			err := filepath.WalkDir(dst, func(p string, de fs.DirEntry, err error) error {
+				if err != nil {
+					return err
+				}
+				if de.Type().IsRegular() {
+					rel, _ := filepath.Rel(dst, p)
+					if rel = filepath.ToSlash(rel); rel != osReleaseMarker {
+						rels = append(rels, rel)
+					}
+				}
+				return nil
+			})
 			if err != nil {
-				return err
+				return nil, nil, err
 			}
-			if de.Type().IsRegular() {
-				rel, _ := filepath.Rel(dst, p)
-				rels = append(rels, filepath.ToSlash(rel))
-			}
-			return nil
-		})
-		if err != nil {
-			return nil, nil, err
-		}
-		sort.Strings(rels)
-		for _, rel := range rels {
-			st.Files++
-			if fi, err := os.Stat(filepath.Join(dst, rel)); err == nil && fi.Size() == 0 {
-				st.EmptyFiles++
-			}
-			for _, e := range byDir[d] {
-				tasks = append(tasks, task{ex: e, root: dst, rel: rel, repoPath: d + "/testdata/" + rel})
+			sort.Strings(rels)
+			for _, rel := range rels {
+				if ei == 0 {
+					st.Files++
+					if fi, err := os.Stat(filepath.Join(dst, rel)); err == nil && fi.Size() == 0 {
+						st.EmptyFiles++
+					}
+				}
+				for _, e := range byDir[d] {
+					tasks = append(tasks, task{ex: e, env: env.Label, root: dst, rel: rel, repoPath: d + "/testdata/" + rel})
+				}
 			}
 		}
 	}
@@ -251,7 +310,10 @@ func Run(repoDir, scratch string, parallel func(n int, fn func(i int)) int) ([]*
 		if tasks[i].ex.Name != tasks[j].ex.Name {
 			return tasks[i].ex.Name < tasks[j].ex.Name
 		}
-		return tasks[i].repoPath < tasks[j].repoPath
+		if tasks[i].repoPath != tasks[j].repoPath {
+			return tasks[i].repoPath < tasks[j].repoPath
+		}
+		return false // stable: environments stay in OSEnvs() order
 	})
 	results := make([][]*Item, len(tasks))
 	var mu sync.Mutex
@@ -274,7 +336,7 @@ func Run(repoDir, scratch string, parallel func(n int, fn func(i int)) int) ([]*
 				continue
 			}
 			p.Extractor = t.ex.E // what the core library does after Extract
-			results[i] = append(results[i], &Item{Ex: t.ex, Fixture: t.repoPath, Required: req, Index: k, Pkg: p})
+			results[i] = append(results[i], &Item{Ex: t.ex, Fixture: t.repoPath, Required: req, Env: t.env, Index: k, Pkg: p})
 		}
 	})
 	_ = done
@@ -351,7 +413,7 @@ func Apply(base *Item, s Subst) *Item {
 	}
 	p.Locations = append([]string(nil), base.Pkg.Locations...)
 	p.Metadata = substMeta(base.Pkg.Metadata, oldN, p.Name, oldV, p.Version)
-	return &Item{Ex: base.Ex, Fixture: base.Fixture, Required: base.Required, Index: base.Index, Pkg: &p, Synth: s.Label, Base: base}
+	return &Item{Ex: base.Ex, Fixture: base.Fixture, Env: base.Env, Required: base.Required, Index: base.Index, Pkg: &p, Synth: s.Label, Base: base}
 }
 
 func substMeta(m any, oldN, newN, oldV, newV string) any {
